@@ -67,6 +67,8 @@ struct DaemonSim {
     panicked: bool,
     hold_exit: bool,
     in_exit_window: bool,
+    drained_at: Option<std::time::Instant>,
+    dead_at: Option<std::time::Instant>,
 }
 
 #[derive(Default)]
@@ -274,6 +276,13 @@ impl World {
         self.wait_parked(d, limit)
     }
 
+    /// Real-time instants at which daemon `d` had drained its queue after
+    /// Exit, and at which its thread ended.
+    pub fn exit_marks(&self, d: usize) -> (Option<std::time::Instant>, Option<std::time::Instant>) {
+        let g = self.lock();
+        (g.daemons[d].drained_at, g.daemons[d].dead_at)
+    }
+
     /// Asks daemon `d` to stop in its exit window (see `Parked::InExitWindow`).
     pub fn hold_exit(&self, d: usize, on: bool) {
         let mut g = self.lock();
@@ -334,6 +343,7 @@ impl Drop for DaemonGuard {
         if let Some((w, d)) = self.0.take() {
             let mut g = w.lock();
             g.daemons[d].dead = true;
+            g.daemons[d].dead_at = Some(std::time::Instant::now());
             g.daemons[d].panicked = std::thread::panicking();
             w.cv.notify_all();
         }
@@ -380,6 +390,7 @@ pub(crate) fn exit_window() {
         _ => return,
     };
     let mut g = w.lock();
+    g.daemons[d].drained_at = Some(std::time::Instant::now());
     if !g.daemons[d].hold_exit {
         return;
     }
